@@ -65,7 +65,19 @@ ENTRIES = {
             "masks, missing counters, one count-function call per level); generated code is re-translated every run and "
             "executed against the Python it came from.",
             "norm.ppf enters as a parameter (table entry supplied by scipy).",
-            "Lean 4 proof over translated source + differential correspondence", "DESIGN.md §6 C07"),    'C12': ("Lean theorems over any ordered field, any number of time points / individuals / covariate arities / plans: the "
+            "Lean 4 proof over translated source + differential correspondence", "DESIGN.md §6 C07"),    'C08': ("Lean theorems on the shared models: every estimator model (std, hajek, gformula, aipw, aipw variance, ipsw, gtransport, "
+            "aipsw, closed-form SNM, cross-tab counts and the whole frame fit) is a function of the row multiset (List.Perm) and "
+            "invariant under injective recoding of stratum / level codes; under A -> not A (with n -> 1-n, d -> 1-d, exposed <-> "
+            "unexposed) all six generated weight formulas are unchanged, arm means swap, RD negates, RR/OR invert, the AIPTW "
+            "variance is unchanged; under Y -> cY+d the means map to c*m+d, ATE scales by c, variance by c^2, TMLE's generated unit "
+            "map gives the same Y* for c>0 and 1-Y* for c<0; SNM psi scales by c and d drops out given the exposure model's score "
+            "equation for the modifiers; an invertible reparametrisation of the design leaves linear predictors and score "
+            "equations unchanged. 80 cells x 17 transformations on the real classes (nine index kinds, permutations, affine "
+            "covariate maps, relabelled codes, 1-A, cY+d), each pair compared through the stated relation.",
+            "Equivariance of the external GLM/GEE/Nelder-Mead fits is measured on each pair (gate H); pandas index alignment is "
+            "glue reached only through gates K/D; SE theorems are at the variance level.",
+            "Lean 4 proof (permutation / relabelling / affine-map algebra) + metamorphic differential check", 'DESIGN.md §6 C08'),
+    'C12': ("Lean theorems over any ordered field, any number of time points / individuals / covariate arities / plans: the "
             "backward recursion of IterativeCondGFormula with cell-fit outcome models equals the nonparametric g-formula "
             "recursion (count form proved equal to the textbook h + (1-h) sum f G form), by induction over the remaining "
             "time points; a plan given as n identical rows behaves exactly like the single row; K=1 equals the time-fixed "
